@@ -36,7 +36,9 @@ var shapeCounter int
 func scriptText(status string, calls []string) string {
 	switch status {
 	case "parse":
-		return "x = 1 +"
+		// unparsable in a different way from set to set: cut after an operator, inside an open block / parenthesis / list / string,
+		// an unbalanced closer - what a rejected text leaves in the (pooled) parser must not reach the scripts parsed after it
+		return []string{"x = 1 +", "if a {", "x = (1", "x = [1,", "for v in [1] {\nx = 1", "x = \"abc", "x = 1 }", "f(1, {\"k\": [2"}[shapeCounter%8]
 	case "check":
 		// a check error with a chain of 3 positions (spare capacity in its slice): a shared, not copied,
 		// chain would be overwritten by the second script that uses this one
@@ -195,7 +197,8 @@ func chainProblem(e error, want specErrRec) string {
 	return ""
 }
 
-func compareLoad(v loaderVec, r loadResult) map[string]any {
+// verdictProblems: accepted / rejected per script against the specification (independent of the visit order).
+func verdictProblems(v loaderVec, r loadResult) map[string]any {
 	bad := map[string]any{}
 	wantAcc := map[string]bool{}
 	for _, a := range v.Accepted {
@@ -211,6 +214,19 @@ func compareLoad(v loaderVec, r loadResult) map[string]any {
 			bad["both-or-neither:"+n] = map[string]any{"accepted": got, "err": gotErr}
 		}
 	}
+	return bad
+}
+
+func scriptsOf(cfg loaderCfg, names []string) map[string]string {
+	out := map[string]string{}
+	for _, n := range names {
+		out[n] = scriptText(cfg.Status[n], cfg.Calls[n])
+	}
+	return out
+}
+
+func compareLoad(v loaderVec, r loadResult) map[string]any {
+	bad := verdictProblems(v, r)
 	for _, b := range v.Bind {
 		caller, idx, callee := b[0].(string), int(b[1].(float64)), b[2].(string)
 		s, ok := r.accepted[caller]
@@ -282,6 +298,15 @@ func replayLoader(args []string) (any, error) {
 			if strings.Join(r.order, ",") == strings.Join(v.Order, ",") {
 				hit = &r
 				break
+			}
+			// whatever order this load took: which scripts are accepted does not depend on it (Loader!OrderIndependent), so the verdicts
+			// of EVERY load are judged - also of loads whose visit order is not the wanted one (a script wrongly rejected before linking is
+			// never visited, so the wanted order may never show up)
+			if bad := verdictProblems(v, r); len(bad) > 0 {
+				sum.Evaluations++
+				sum.miss("loader-verdicts:"+cfgSig(v.loaderCfg)+"@"+strings.Join(r.order, ","),
+					map[string]any{"status": v.Status, "calls": v.Calls, "order_taken": r.order, "scripts": scriptsOf(v.loaderCfg, cand), "bad": bad})
+				return nil
 			}
 		}
 		if hit == nil {
